@@ -235,8 +235,9 @@ def run_capi(cfg, ops, seed, top):
     model = rf.Model()
     model.open_session(cfg)
     datafile = os.path.join(top, "data.bin")
+    esc = lambda p_: p_.replace(" ", "\x01")  # the driver's line protocol is blank-separated
     lines = ["create %s %s %s %d %d %d %d %d %d %s %d %d %d %d %d" % (
-        chdir, cfg["order"], cfg["kind"], cfg["size"], cfg["sc"], cfg["fc"], cfg["start"], cfg["n"], cfg["d"],
+        esc(chdir), cfg["order"], cfg["kind"], cfg["size"], cfg["sc"], cfg["fc"], cfg["start"], cfg["n"], cfg["d"],
         cfg["uuid"], cfg["comp"], int(cfg["cks"]), int(cfg["cplx"]), cfg["nsub"], int(cfg["cont"]))]
     blob = b""
     expect = []
@@ -248,10 +249,10 @@ def run_capi(cfg, ops, seed, top):
         arr = rf.values_for(cfg, seed, g, b, length)
         raw = arr.tobytes()
         if op[0] == "w":
-            lines.append("write %d %d %s %d %d" % (g[0], length, datafile, len(blob), len(raw)))
+            lines.append("write %d %d %s %d %d" % (g[0], length, esc(datafile), len(blob), len(raw)))
         else:
             lines.append("wblocks %d %s %d %s %d %d" % (
-                len(g), " ".join("%d %d" % (x, y) for x, y in zip(g, b)), length, datafile, len(blob), len(raw)))
+                len(g), " ".join("%d %d" % (x, y) for x, y in zip(g, b)), length, esc(datafile), len(blob), len(raw)))
         blob += raw
         if reason is None:
             model.apply_write(g, b, rf.row_bytes(arr))
